@@ -337,6 +337,18 @@ def install_fs(ex, fs):
         return MetaV(n.kind)
     add(r'(?:std::fs::)?symlink_metadata::<.*>', wrap(symlink_metadata))
 
+    def remove_file(p):
+        t = fs.resolve(P(p), False)       # unlink: removes the name, never what a symlink points to
+        n = fs.nodes.get(t)
+        if n is None:
+            raise IoErr('NotFound')
+        if n.kind == 'dir':
+            raise IoErr('IsADirectory')
+        del fs.nodes[t]
+        fs.log.append(('unlink', t))
+        return UNIT
+    add(r'(?:std::fs::)?remove_file::<.*>', wrap(remove_file))
+
     def path_exists(ex, c, a):
         try:
             t = fs.resolve(P(a[0]), True)
@@ -556,6 +568,8 @@ def setup_fs(ex, dest_state='absent', chown_permitted=True):
         fs.mkdirs(DEST)
         fs.nodes[DEST + '/existing'] = FsNode('symlink', target='../out/sentinel', owner=('pre', 'pre'), mtime=('pre', 'pre'))
         fs.nodes[DEST + '/dangling'] = FsNode('symlink', target='nowhere', owner=('pre', 'pre'), mtime=('pre', 'pre'))
+        # ... and one named like an archived directory, pointing at a directory outside
+        fs.nodes[DEST + '/p'] = FsNode('symlink', target='../out', owner=('pre', 'pre'), mtime=('pre', 'pre'))
     install_fs(ex, fs)
     install_local_transport(ex, fs)
     return fs
@@ -888,6 +902,10 @@ def make_refuse(prog):
             else:
                 if r.variant != 0:
                     problems.append('restore failed: %s' % variant_name(ex, r.fields[0]))
+                # an accepted restore (empty destination, or overwrite into a populated one -- including one whose
+                # entries are symlinks left by an earlier restore) still touches nothing outside the destination
+                outside = {p: s_ for p, s_ in before.items() if not (p == DEST or p.startswith(DEST + '/'))}
+                outside_unchanged(fs, outside, DEST, problems)
             return problems, state, overwrite, fs
 
         def on_path(ex, out):
